@@ -265,9 +265,13 @@ impl TerminalRenderer {
     /// back (old) and front (new) buffers.
     #[tracing::instrument(name = "[TerminalRenderer.frame]", level="debug", skip_all, fields(frame_count = %self.frame_count))]
     pub fn frame<T: Terminal + ?Sized>(&mut self, term: &mut T) -> Result<(), Error> {
-        // clear hoisted locals
+        // clear hoisted locals, damage requested by `clear` must survive until it is repainted
         self.images.clear();
-        self.marks.fill(CellMark::Empty);
+        for mark in self.marks.iter_mut() {
+            if !matches!(mark, CellMark::Damaged) {
+                *mark = CellMark::Empty;
+            }
+        }
 
         // First pass
         //
@@ -422,6 +426,7 @@ impl TerminalRenderer {
         }
 
         // Flip and clear buffers
+        self.marks.fill(CellMark::Empty);
         self.frame_count += 1;
         std::mem::swap(&mut self.front, &mut self.back);
         self.front.clear();
